@@ -1,0 +1,142 @@
+// Copyright (C) 2025-2026 Michael S. Klishin and Contributors
+//
+// Licensed under the Apache License, Version 2.0 (the "License");
+// you may not use this file except in compliance with the License.
+// You may obtain a copy of the License at
+//
+// http://www.apache.org/licenses/LICENSE-2.0
+//
+// Unless required by applicable law or agreed to in writing, software
+// distributed under the License is distributed on an "AS IS" BASIS,
+// WITHOUT WARRANTIES OR CONDITIONS OF ANY KIND, either express or implied.
+// See the License for the specific language governing permissions and
+// limitations under the License.
+
+//! Exact comparison of Erlang numbers across their representations
+//! (small integer, big integer, float), shared by the owned and borrowed term types.
+
+use crate::types::BigInt;
+use std::cmp::Ordering;
+
+/// Little-endian base-256 digits without the most significant zero digits.
+fn trim_digits(digits: &[u8]) -> &[u8] {
+    let len = digits.iter().rposition(|&d| d != 0).map_or(0, |p| p + 1);
+    &digits[..len]
+}
+
+/// Compares two magnitudes given as little-endian base-256 digit strings
+/// in minimal form (no most significant zero digits).
+fn compare_magnitudes(a: &[u8], b: &[u8]) -> Ordering {
+    a.len()
+        .cmp(&b.len())
+        .then_with(|| a.iter().rev().cmp(b.iter().rev()))
+}
+
+/// Compares two integers given as sign and minimal magnitude (zero has no sign).
+fn compare_sign_magnitude(a_neg: bool, a: &[u8], b_neg: bool, b: &[u8]) -> Ordering {
+    let a_sign = if a.is_empty() { 0 } else if a_neg { -1 } else { 1 };
+    let b_sign = if b.is_empty() { 0 } else if b_neg { -1 } else { 1 };
+    match a_sign.cmp(&b_sign) {
+        Ordering::Equal if a_sign >= 0 => compare_magnitudes(a, b),
+        Ordering::Equal => compare_magnitudes(b, a),
+        other => other,
+    }
+}
+
+pub(crate) fn compare_int_bigint(i: i64, big: &BigInt) -> Ordering {
+    let magnitude = i.unsigned_abs().to_le_bytes();
+    compare_sign_magnitude(
+        i < 0,
+        trim_digits(&magnitude),
+        big.sign.is_negative(),
+        &big.digits,
+    )
+}
+
+pub(crate) fn compare_bigint_int(big: &BigInt, i: i64) -> Ordering {
+    compare_int_bigint(i, big).reverse()
+}
+
+pub(crate) fn compare_bigint(a: &BigInt, b: &BigInt) -> Ordering {
+    compare_sign_magnitude(
+        a.sign.is_negative(),
+        &a.digits,
+        b.sign.is_negative(),
+        &b.digits,
+    )
+}
+
+/// Compares an integer (sign and minimal magnitude) with a float by mathematical value,
+/// without rounding.
+fn compare_integer_float(neg: bool, magnitude: &[u8], f: f64) -> Ordering {
+    if f.is_nan() {
+        return Ordering::Less;
+    }
+    let int_sign = if magnitude.is_empty() { 0 } else if neg { -1 } else { 1 };
+    let float_sign = if f == 0.0 { 0 } else if f < 0.0 { -1 } else { 1 };
+    if int_sign != float_sign {
+        return int_sign.cmp(&float_sign);
+    }
+    if int_sign == 0 {
+        return Ordering::Equal;
+    }
+
+    let abs = f.abs();
+    let by_magnitude = if abs.is_infinite() {
+        Ordering::Less
+    } else {
+        // |f| = significand * 2^exponent with an integral significand below 2^53
+        let bits = abs.to_bits();
+        let biased = ((bits >> 52) & 0x7ff) as i32;
+        let fraction = bits & ((1u64 << 52) - 1);
+        let (significand, exponent) = if biased == 0 {
+            (fraction, -1074)
+        } else {
+            (fraction | (1u64 << 52), biased - 1075)
+        };
+
+        // floor(|f|) as little-endian digits, and whether |f| has a fractional part
+        let (floor, has_fraction) = if exponent >= 0 {
+            let byte_shift = (exponent / 8) as usize;
+            let shifted = (significand as u128) << (exponent % 8);
+            let mut digits = vec![0u8; byte_shift];
+            digits.extend_from_slice(&shifted.to_le_bytes());
+            (digits, false)
+        } else if exponent <= -64 {
+            (Vec::new(), significand != 0)
+        } else {
+            let shift = -exponent as u32;
+            let floor = significand >> shift;
+            let rest = significand & ((1u64 << shift) - 1);
+            (floor.to_le_bytes().to_vec(), rest != 0)
+        };
+
+        compare_magnitudes(magnitude, trim_digits(&floor)).then(if has_fraction {
+            Ordering::Less
+        } else {
+            Ordering::Equal
+        })
+    };
+
+    if int_sign > 0 {
+        by_magnitude
+    } else {
+        by_magnitude.reverse()
+    }
+}
+
+pub(crate) fn compare_int_float(i: i64, f: f64) -> Ordering {
+    compare_integer_float(i < 0, trim_digits(&i.unsigned_abs().to_le_bytes()), f)
+}
+
+pub(crate) fn compare_float_int(f: f64, i: i64) -> Ordering {
+    compare_int_float(i, f).reverse()
+}
+
+pub(crate) fn compare_bigint_float(big: &BigInt, f: f64) -> Ordering {
+    compare_integer_float(big.sign.is_negative(), &big.digits, f)
+}
+
+pub(crate) fn compare_float_bigint(f: f64, big: &BigInt) -> Ordering {
+    compare_bigint_float(big, f).reverse()
+}
